@@ -33,6 +33,7 @@ struct ChildOutcome
 {
   enum Kind { OK, DIED, TIMEOUT } kind = OK;
   int status = 0;
+  bool cpuLimitHit = false; // TIMEOUT caused by RLIMIT_CPU (SIGXCPU): CPU time, hence independent of machine load
   std::string payload;
   std::string errText;
 };
@@ -128,6 +129,7 @@ inline ChildOutcome runChild(const std::function<void(int)>& body, double cpuSec
     usleep(200);
   }
   out.status = st;
+  out.cpuLimitHit = !killed && WIFSIGNALED(st) && (WTERMSIG(st) == SIGXCPU || WTERMSIG(st) == SIGKILL);
   if (killed || (WIFSIGNALED(st) && WTERMSIG(st) == SIGXCPU) || (WIFSIGNALED(st) && WTERMSIG(st) == SIGKILL))
     out.kind = ChildOutcome::TIMEOUT;
   else if (WIFEXITED(st) && WEXITSTATUS(st) == 0)
